@@ -240,6 +240,9 @@ pub fn a_meta() -> Alphabet {
             "1", "0", "5", " ", "h", "m", "s", "d", "min", "hour", ".", "-", "e", "|", ",", "<",
             ">", "://", "_", "a", "x.y", "4294967295", "4294967296", "71582788", "71582789",
             "99999999999", "[", "]", "\"", "'", ":", "#", "{", "}", "é", "inf", "NaN", "+",
+            // compact HhMm form at the u32 limit: 71582788 h = 2^32 - 16 min, so `71582788h15m` is the largest
+            // representable total and `71582788h16m` the first one that is not (round 7, C03-r7a)
+            "71582788h", "15m", "16m",
         ],
     )
 }
